@@ -65,6 +65,11 @@ def run_C07(tier, seed, t0):
     bits = 64 if tier == 'thorough' else 34
     specs = [('harness.kernels', 'hilo_task', (bits,)), ('harness.kernels', 'sign_extend_task', ())]
     specs += [('harness.pipe', 'hilo_pairs_task', (k, bits)) for k in range(7)]
+    # call / tail are auipc+jalr (%hi/%lo) pairs: label and constant targets, both modes
+    for nm in ('call', 'tail'):
+        for d in ('fwd', 'bwd', 'abs'):
+            for c in (False, True):
+                specs.append(('harness.pseudo', 'pseudo_task', (nm, d, c, 34, 23, 'C07')))
     res = pmap(specs)
     return finish('C07', tier, seed, res, t0,
                   bounds=dict(value='signed %d-bit (covers every 32-bit value in all negative / >2^31 spellings)' % bits),
@@ -78,7 +83,7 @@ def run_C05(tier, seed, t0):
     gap_bits = 23 if tier == 'thorough' else 22
     specs = []
     for name in ALL:
-        for d in (['fwd', 'bwd', 'ctx'] if name in LABELLED else ['-']):
+        for d in (['fwd', 'bwd', 'ctx', 'abs'] if name in LABELLED else ['-']):
             for c in (False, True):
                 specs.append(('harness.pseudo', 'pseudo_task', (name, d, c, li_bits, gap_bits)))
     res = pmap(specs)
@@ -206,6 +211,7 @@ def run_C11(tier, seed, t0):
         for c in ((False, True) if not m.startswith('c.') else (False,)):
             specs.append(('harness.equiv', 'equiv_task', ('C11', m, w, 'const-vs-literal', c)))
     specs.append(('harness.equiv', 'constdef_task', (bits,)))
+    specs += [('harness.equiv', 'clash_task', (w_, c)) for w_ in ('START', 'BUF') for c in (False, True)]
     specs.append(('harness.equiv', 'charlit_table_task', ()))
     from .data import directive_programs
     dp = {n: (s, v) for n, s, v in directive_programs()}
